@@ -1845,6 +1845,10 @@ class Interp:
             if st.in_range(p, rlo, rhi) is True:
                 return self.mk(st, ty, p)
             alo, ahi = st.itv(a)
+            if alo == ahi:
+                # constant operand: the bits shifted out are lost, the result is read in two's complement
+                span = rhi - rlo + 1
+                return K((alo * 2**k - rlo) % span + rlo, ty)
             if rlo == 0 and alo >= 0 and k > 0:
                 # the high k bits are shifted out: 2^k * (a mod 2^(w-k)) = 2^k*a - 2^w * (a / 2^(w-k))
                 T = self.tdiv_atom(st, st.norm(a.p), pconst(2**(bits - k)))
